@@ -25,6 +25,7 @@ ASSUMPTIONS = ["probabilities are dyadic rationals, so the float the implementat
                "receives", "float results are compared with exact rationals within 1e-9",
                "CPython set/dict iteration order only selects which common key is used (covered by the schedule)"]
 TRUSTED = ["float -> exact Fraction conversion of the implementation's outputs before c14_check"]
+PARTIAL = ['C14_inverse needs every probability strictly positive on its keys and a joint degree positive in every topology (inv_hyp) - the hypothesis the property sentence states as "whenever some joint degree is positive in every topology"']
 TECHNIQUE = "Coq proof (finite sums over Q, handshake double counting) + model/implementation correspondence"
 LEVEL_TEXT = (
     "General theorems in coq/Props/C14.v (no size bound): q_i(k - e_i) = k_i P(k)/<k_i>, its key set, sum q_i = 1; "
